@@ -93,3 +93,27 @@ def _v24(repo, mod):
     while not isinstance(st, ast.stmt):
         st = parent(st)
     return replace_nodes(mod, [(c.args[1], "expected")]).replace(norm(st)[:0], "", 0) if False else insert_before(mod, st, "expected = copy.deepcopy(value)").replace("ass.ObjectAssertion(source, copy.deepcopy(value))", "ass.ObjectAssertion(source, expected)")
+
+
+A2A = "pynguin.assertion.assertion_to_ast"
+
+
+@variant("C20", "flag-members-rendered-by-name-only", A2A, "C20.value", "composite / unnamed Flag members rendered through their name (the repaired defect)")
+def _v40(repo, mod):
+    fn = repo.func(A2A, "_value_to_cst")
+    s = find_stmt(fn, lambda s: isinstance(s, ast.If) and "isidentifier" in norm(s.test))
+    return delete_stmt(mod, s)
+
+
+@variant("C20", "local-classes-named-in-isinstance", ATO, "C20.nameable", "classes defined inside a function count as importable (the repaired defect)")
+def _v41(repo, mod):
+    fn = repo.func(ATO, "RemoteAssertionTraceObserver._is_type_importable")
+    s = find_stmt(fn, lambda s: isinstance(s, ast.If) and "<locals>" in norm(s.test))
+    return delete_stmt(mod, s)
+
+
+@variant("C20", "odd-field-names-followed", ATO, "C20.nameable", "fields whose name is no identifier are asserted on (the repaired defect)")
+def _v42(repo, mod):
+    fn = repo.func(ATO, "RemoteAssertionTraceObserver._should_ignore")
+    r = find_stmt(fn, lambda s: isinstance(s, ast.Return))
+    return replace_node(mod, r.value, 'field.startswith("_") or field.endswith("__") or callable(attr_value) or isinstance(attr_value, ModuleType | staticmethod | classmethod | property)')
